@@ -233,6 +233,7 @@ class ModelSelf(Tracked):
             object.__setattr__(self, k, "<%s>" % k)
         self._given_weights_model = None
         self._mingenset_model = None
+        self._user_args = {k: "<user %s>" % k for k in ("G", "cover_type", "subpath_constraints", "subset_constraints", "elements_to_ignore", "additional_starts", "additional_ends")}
         self.solve_time_ilp_total = Sym(c.fresh_const("ilp_total", REAL))
         self.lb = Sym(c.fresh_const("lowerbound_k", INT))
         self.created = []
